@@ -44,6 +44,8 @@ def unit_decode():
     t += block('script/script.cpp', r'^bool CScript::HasValidOps\(\) const', trailing=None, open_at_bol=True)
     t += block('script/script.cpp', r'^bool CheckMinimalPush\(', trailing=None)
     t += 'typedef verif_bytes valtype;\n' + block('script/interpreter.cpp', r'^bool CastToBool\(const valtype& vch\)', trailing=None)
+    # R-MOVE: `script = std::move(result);` -> copy assignment (no move assignment in the stub class; same resulting value)
+    t += rewrite(block('script/interpreter.cpp', r'^int FindAndDelete\(CScript& script, const CScript& b\)', trailing=None, open_at_bol=True), [(r'script = std::move\(result\);', 'script = result;', 1)])
     t = rewrite(t, R_TYPES + R_LIMITS)
     return t + '\n#include "h_decode.h"\n'
 
@@ -65,3 +67,9 @@ def unit_parse_input():
     # R-RANGEFOR: range-for over the input vector -> index loop in the same order
     f = rewrite(f, [(r'for \(const auto& input : tx->vin\) \{', 'for (size_t verif_k = 0; verif_k < tx->vin.size(); ++verif_k) { const CTxIn& input = tx->vin[verif_k];', 1)])
     return t + f + '\n#include "h_parse_input.h"\n'
+
+# ---- ConditionStack refinement (C01 L0): the size/first-false representation refines a vector<bool> ----------------------
+def unit_condstack():
+    t = '#include "verif_std.h"\nint verif_expect_throw; int verif_thrown;\n'
+    t += r_nsdmi(rewrite(block('debugger/see.h', r'^class ConditionStack'), R_LIMITS), 'ConditionStack', 2)
+    return t + '\n#include "h_condstack.h"\n'
